@@ -82,6 +82,7 @@ func scenBlock(rng *rand.Rand, tr *sim.Trace, seg int, events int) {
 	blocked := sim.BlockSet{}
 	var pool []*net.UDPAddr
 	o := opts{burst: -1, passive: rng.Intn(3) == 0, peerstore: true, announcecb: true}
+	o.hook = rng.Intn(2) == 0 // a query hook that lets (almost) everything through must not un-silence a passive node
 	late := rng.Intn(2) == 0
 	tmp := &H{rng: rng}
 	for i := 0; i < 10; i++ {
